@@ -195,6 +195,28 @@ def check_vector(v):
         n += 1
         if o != ("ok", ([sq[::-1].upper() for sq in seqs], [sq.upper() for sq in seqs])):
             rep("Genome.read_sequence(other file) / read_sequence() do not read the file that was asked for", "read_sequence", [sq[::-1] for sq in seqs], o)
+    if not crlf:
+        # the same records under names that hold an underscore, behind a sequence object made from the indexed file alone (no Genome): it
+        # reports every contig of the file with its length, and intervals placed through ITS context get their own bases
+        def own_context():
+            from bionumpy.genomic_data import GenomicSequence, GenomicIntervals
+            pathu = os.path.join(d, "u.fa")
+            for f_ in (pathu, pathu + ".fai"):
+                if os.path.exists(f_):
+                    os.remove(f_)
+            unames = ["c_%d.x" % (i + 1) for i in range(len(names))]
+            with open(pathu, "w") as f:
+                for nm, sq in zip(unames, seqs):
+                    f.write(">%s\n%s\n" % (nm, sq))
+            sq_ = GenomicSequence.from_indexed_fasta(bnp.open_indexed(pathu))
+            ctx_ = sq_.genome_context
+            ivs_ = GenomicIntervals.from_fields(ctx_, unames, np.zeros(len(unames), dtype=int), np.array([len(x) for x in seqs]))
+            return {k: int(x) for k, x in ctx_.chrom_sizes.items()}, [x.to_string().upper() for x in sq_[ivs_]]
+        o = outcome(own_context)
+        n += 1
+        want_u = ({"c_%d.x" % (i + 1): len(sq) for i, sq in enumerate(seqs)}, [sq.upper() for sq in seqs])
+        if o != ("ok", want_u):
+            rep("a sequence object made from the indexed file alone does not report / serve every contig of the file", "GenomicSequence.from_indexed_fasta[own context]", want_u, o)
     if not crlf and len(names) >= 2:
         # ONE sequence object asked with intervals whose contig column is encoded by two genomes that list the contigs in opposite orders
         # (then by the first again): every interval gets the bases of the contig it names, whatever was asked before
